@@ -32,6 +32,7 @@ PYVC_MODULES = [
     "contracts.fermi_contract",
     "contracts.abelian_ops",
     "contracts.alignment",
+    "contracts.fusecache",
 ]
 
 BASE = [A_BUILTINS, A_INT, A_TERM, A_NUMPY, A_BOUNDED, A_USER]
